@@ -48,8 +48,14 @@ def parse_csv(text):
     return list(csv.reader(io.StringIO(text, newline=""), dialect=_Dialect))
 
 
+GROUPED = re.compile(r"\s*[+-]?\d{1,3}(,\d{3})+(\.\d*)?([eE][+-]?\d+)?\s*")
+
+
 def classify(s):
-    """-> ('num', float) | ('text', s)"""
+    """-> ('num', float) | ('text', s).  A cell is a number when float() reads it, commas being allowed only as thousands separators
+    (groups of three digits after the first group): '1,234.5' is a number, '1,2,3', '12,5' and ',5' are text."""
+    if "," in s and not GROUPED.fullmatch(s):
+        return ("text", s)
     try:
         f = float(s.replace(",", ""))
     except ValueError:
@@ -242,7 +248,7 @@ def numeric_spelling(draw):
 
 
 free_text = st.text(max_size=12) | st.sampled_from(["a,b", 'say "hi"', "line1\nline2", "cr\rhere", "crlf\r\nhere", " lead", "trail ", "tab\tx", "é😀", "'", '"', ",", "\n", "\r",
-                                                    "=1+2", "TRUE", "1/2", "12abc", "0x10", "1,2,x", "$5", "5%", "--5", "1e", "e5", "١٢x"])
+                                                    "=1+2", "TRUE", "1/2", "12abc", "0x10", "1,2,x", "$5", "5%", "--5", "1e", "e5", "١٢x", "1,2,3", "12,5", "7,", ",5", "1,,2", "1e,5", "1,00", "12,34,567", "1,2345"])
 cells = st.one_of(free_text, free_text, numeric_spelling(), numeric_spelling(), st.sampled_from(SPECIALS), st.just(""), st.integers(0, 9999).map(str))
 
 
